@@ -29,11 +29,14 @@
      attribute values (missing or not)                                              -> batch_keeps_known_rows
    * filter_interactions(min_time <= t < max_time), rational bounds, missing times   -> time_window_exact
    * "per-user/per-item statistics": record count and rating count by presence       -> stats_counts
+   * "(user, item, attribute values)": every attribute COLUMN of the input is carried by the stored table,
+     by the table with original ids and by a table restricted to it, whatever the column is called
+     (over Gen/C01_columns.v, regenerated from builder.py / relationships.py / schema.py) -> views_carry_every_attribute
    Not theorems (correspondence only): the SciPy/PyTorch constructors, the group_by statistics other
    than the counts (mean, first/last time), Arrow's join/unique/value_counts kernels themselves. *)
 From Coq Require Import ZArith QArith Qround List Bool Arith Sorting.Sorted Sorting.Permutation.
 From LK Require Import Model.C01_dataset Proofs.C01_vocab Proofs.C01_sort Proofs.C01_rowptr Proofs.C01_refine1
-  Proofs.C01_refine2 Proofs.C01_views Proofs.C01_main Proofs.C01_attrs.
+  Proofs.C01_refine2 Proofs.C01_views Proofs.C01_main Proofs.C01_attrs Gen.C01_columns Proofs.C01_columns.
 Import ListNotations.
 Open Scope Z_scope.
 
@@ -179,6 +182,41 @@ Theorem stats_counts : forall s ar ops d c,
     (st_ratings (stats_of s c d n) <= st_records (stats_of s c d n))%nat.
 Proof. exact stats_counts_l. Qed.
 Print Assumptions stats_counts.
+
+(* Column names.  A frame with the columns `frame_cols` is added to a relationship over `entities`; its attribute columns
+   (`frame_attrs`: the columns other than the entities' id columns) may be called anything except the relationship's own link
+   columns `<entity>_num`.  Then, for EVERY such naming -- a name ending in `_num` or `_id`, a name used by the statistics, an
+   empty name -- the table with original ids (RelationshipSet.arrow(ids=True): interaction_table / interaction_matrix with
+   original_ids=True) has exactly the id columns followed by all attribute columns, the stored table (all number-based views)
+   has the link columns followed by all attribute columns, attribute_names lists exactly the attribute columns, and restricting
+   either table to one attribute column (fields=[a] / field=a) succeeds and gives the two entity columns and that column. *)
+Theorem views_carry_every_attribute : forall entities frame_cols : list String.string,
+  (forall a, In a (frame_attrs entities frame_cols) -> ~ In a (link_cols entities)) ->
+  ids_view_cols entities (stored_cols entities frame_cols) = map id_col_name entities ++ frame_attrs entities frame_cols /\
+  stored_cols entities frame_cols = link_cols entities ++ frame_attrs entities frame_cols /\
+  attribute_names entities (stored_cols entities frame_cols) = frame_attrs entities frame_cols /\
+  forall a, In a (frame_attrs entities frame_cols) ->
+    select_cols (link_cols entities) [a] (stored_cols entities frame_cols) = Some (link_cols entities ++ [a]) /\
+    select_cols (map id_col_name entities) [a] (ids_view_cols entities (stored_cols entities frame_cols))
+      = Some (map id_col_name entities ++ [a]).
+Proof. exact views_carry_every_attribute_l. Qed.
+Print Assumptions views_carry_every_attribute.
+
+(* non-vacuity of the naming hypothesis on names that resemble the link columns *)
+Section ColumnNameExample.
+Import String.
+Example attribute_named_like_a_number_column :
+  let entities := ["user"; "item"]%string in
+  let frame := ["user_id"; "item_id"; "rating"; "disc_num"; "user_num_num"; "session_id"; ""]%string in
+  (forall a, In a (frame_attrs entities frame) -> ~ In a (link_cols entities)) /\
+  ids_view_cols entities (stored_cols entities frame) = ["user_id"; "item_id"; "rating"; "disc_num"; "user_num_num"; "session_id"; ""]%string /\
+  stored_cols entities frame = ["user_num"; "item_num"; "rating"; "disc_num"; "user_num_num"; "session_id"; ""]%string.
+Proof.
+  cbv zeta. split; [|split; vm_compute; reflexivity].
+  intros a Ha Hl. vm_compute in Ha, Hl.
+  repeat (destruct Ha as [Ha|Ha]; [subst a; repeat (destruct Hl as [Hl|Hl]; [discriminate Hl|]); exact Hl|]). exact Ha.
+Qed.
+End ColumnNameExample.
 
 (* non-vacuity: identifiers not in ascending order of arrival (ranks 4, 1, 3 then 0, 2), a late-added
    user, an unknown user filtered out of a batch, a pair removed by a filter, a record with a missing
